@@ -415,8 +415,11 @@ def _judge_dropped_errors(v: Verdict, calls: list[dict[str, Any]], extra_recs: l
         err = task.exception()
         # only calls that returned *normally* are conclusive: a call that raised because of other tasks'
         # errors legitimately leaves this task's error for the next wait()/stop()
+        # a stop() gives up waiting as soon as the tasks it cancelled have ended (their CancelledErrors end its
+        # wait() loop), so a task added *after* that stop() was called is "spawned during stop()": not asserted
         pending = [c for c in calls if c["t"] <= rec["t_done"] and c["done"] and c["exc"] is None
-                   and not c["task"].cancelled() and c["t_done"] is not None and c["t_done"] >= rec["t_done"]]
+                   and not c["task"].cancelled() and c["t_done"] is not None and c["t_done"] >= rec["t_done"]
+                   and not (c["op"] == "stop" and rec["t_add"] >= c["t"])]
         if any(c["t"] <= rec["t_done"] and (c["t_done"] is None or c["t_done"] >= rec["t_done"]) for c in calls):
             v.labels.add("task_failed_while_wait_or_stop_pending")
         if not pending:
